@@ -101,8 +101,9 @@ class DIP:
     def _determine_node(self, line):
         # Add replacement marks
         # TODO: we need to also properly treate arrays like this ["d#", "b"]
-        encode = ["\\'", '\\"', "\n"]
-        for i,symbol in enumerate(encode):
+        # (the mark itself is encoded first and decoded last, so that a literal "$@" in the code survives)
+        encode = ["\\'", '\\"', "\n", "$@"]
+        for i,symbol in reversed(list(enumerate(encode))):
             line['code'] = line['code'].replace(symbol,f"$@{i:02d}")
             
         # Determine node type
@@ -149,7 +150,7 @@ class DIP:
         
         # Convert symbols to original letters
         def decode_symbols(value):
-            replace = ["\'", '\"', "\n"]
+            replace = ["\'", '\"', "\n", "$@"]
             if isinstance(value, (list, np.ndarray)):
                 value = [decode_symbols(v) for v in value]
             elif value is None:
